@@ -445,7 +445,7 @@ func init() {
 				for role := 0; role <= 1; role++ {
 					for pre := 0; pre <= 1; pre++ {
 						for kind := 0; kind <= 4; kind++ {
-							for dmg := 0; dmg < 10; dmg++ {
+							for dmg := 0; dmg < 11; dmg++ {
 								for extra := 0; extra <= 1; extra++ {
 									if extra == 1 && dmg != 0 {
 										continue
